@@ -314,3 +314,30 @@ contract('odml/base.py::Sectionable.document.getter',
          decreases={0: 'depth(par)'},
          props=('C03', 'C14'),
          note='an object\'s document is the root of its parent chain; the walk terminates')
+
+
+# ---- C11: Property.clone -----------------------------------------------------------------------
+contract('odml/property.py::BaseProperty.values.setter',
+         types={'self': 'BaseProperty', 'new_value': 'any'}, inline=False, assumed=True, inv=False,
+         requires='True', ensures=[], raises={},
+         modifies_self=('_values', '_dtype'),
+         props=('C11',),
+         note='ASSUMED, and only for the call shape used by clone (the stored value list of a Property of the same '
+              'dtype is assigned): does not raise, stores a NEW list object, writes only _values/_dtype of self. '
+              'The setter itself (conversion, validation, cardinality message) is decided by the bounded checks '
+              'b_values / b_C11 only.')
+
+contract('odml/property.py::BaseProperty.clone',
+         types={'self': 'BaseProperty', 'keep_id': 'bool'},
+         requires='True',
+         ensures=['isProp(result) and result is not self',
+                  'field(result, "_parent") is None',
+                  'field(result, "_name") == old(field(self, "_name"))',
+                  'implies(keep_id, field(result, "_id") == old(field(self, "_id")))',
+                  'implies(not keep_id, canon_uuid(field(result, "_id")))',
+                  'field(result, "_values") is not field(self, "_values")'],
+         raises={},
+         frame_old=True,
+         props=('C11', 'C03'),
+         note='the copy is a new detached Property with the same name, a new value list, the same id iff keep_id; '
+              'no object that existed before is modified; Inv holds (the copy is a well-formed root)')
